@@ -74,12 +74,11 @@ class HttpTransport(Transport):
         url = self.__get_request_url_for_urllib(request)
         msg = request.message
         headers = request.headers
-        if 'Content-Encoding' in headers:
-            encoding = headers['Content-Encoding']
-            if encoding == 'gzip':
-                msg = gzip.compress(msg)
-            elif encoding == 'deflate':
-                msg = zlib.compress(msg)
+        encoding = self.__content_encoding(headers)
+        if encoding in ('gzip', 'x-gzip'):
+            msg = gzip.compress(msg)
+        elif encoding == 'deflate':
+            msg = zlib.compress(msg)
         try:
             u2request = urllib.request.Request(url, msg, headers)
             self.addcookies(u2request)
@@ -92,18 +91,34 @@ class HttpTransport(Transport):
             if sys.version_info < (3, 0):
                 headers = headers.dict
             message = fp.read()
-            if 'Content-Encoding' in headers:
-                encoding = headers['Content-Encoding']
-                if encoding == 'gzip':
-                    message = gzip.decompress(message)
-                elif encoding == 'deflate':
-                    message = zlib.decompress(message)
+            encoding = self.__content_encoding(headers)
+            if encoding in ('gzip', 'x-gzip'):
+                message = gzip.decompress(message)
+            elif encoding == 'deflate':
+                message = zlib.decompress(message)
             reply = Reply(http.client.OK, headers, message)
             log.debug('received:\n%s', reply)
             return reply
         except urllib.error.HTTPError as e:
             if e.code not in (http.client.ACCEPTED, http.client.NO_CONTENT):
                 raise TransportError(e.msg, e.code, e.fp)
+
+    @staticmethod
+    def __content_encoding(headers):
+        """
+        Get the content coding named by a set of HTTP headers.
+
+        Header field names and content-coding values are case-insensitive.
+
+        @param headers: HTTP headers.
+        @type headers: mapping
+        @return: The lower-cased content-coding or None.
+        @rtype: str
+
+        """
+        for name, value in list(headers.items()):
+            if str(name).lower() == 'content-encoding':
+                return str(value).strip().lower()
 
     def addcookies(self, u2request):
         """
